@@ -458,6 +458,16 @@ func modeC03() {
 		cases = nil // debugging aid: go straight to the lock-level phase
 		deadline = time.Now().Add(25 * time.Minute)
 	}
+	if f := os.Getenv("VERIF_ONLYCASE"); f != "" {
+		// debugging aid: only the configurations whose description contains f
+		var keep []Case
+		for _, c := range cases {
+			if strings.Contains(c.String(), f) {
+				keep = append(keep, c)
+			}
+		}
+		cases = keep
+	}
 	for i, c := range cases {
 		if !vlib.Mine(i) {
 			continue
@@ -478,6 +488,11 @@ func modeC03() {
 		// on the tight set "demote the running thread" is a deviation too: one of them keeps a
 		// thread out of the way while the others run on, however many steps that takes
 		cfg.Demote = bound > 0
+		if bound > 0 {
+			// and its sleeping variant: the demoted thread is also late by up to 400 ms of virtual
+			// time, long enough for the sender's 300 ms resume grace period to run out meanwhile
+			cfg.DemoteSleep = int64(400 * time.Millisecond)
+		}
 		explore(st, p, env, bound, deadline, cfg, func(x *vrt.Exec, o *Outcome) {
 			checkC03(p, x, o)
 			res.Nontrivial(fmt.Sprintf("%s|%x", keyOf(c), x.Trace()))
